@@ -83,6 +83,20 @@ F_DHYPHEN = "C19-type-name-double-hyphen-21"
 F_BACKTRACK = "C19-type-name-21-regex-backtracking"
 
 
+def eval_lines(tag, header, terms, shard=400):
+    """common.coq_eval_lines, retried once after rebuilding the model files when a dependency was recompiled
+    under our feet (the tree is shared with other checks: `inconsistent assumptions`)."""
+    try:
+        return common.coq_eval_lines(tag, header, terms, shard=shard)
+    except RuntimeError as e:
+        if "inconsistent assumptions" not in str(e) and "Cannot find a physical path" not in str(e) \
+                and "not found in loadpath" not in str(e):
+            raise
+        with common.Lock():
+            common.make(["Model/RegistryInit.vo", "Model/RegistryBuilder.vo"])
+        return common.coq_eval_lines(tag, header, terms, shard=shard)
+
+
 # ------------------------------------------------------------------ the naming rules (oracle side, Python)
 
 def type_must(s):
@@ -680,7 +694,7 @@ def gen_inherit(run, idx):
         if r > 0.75:
             props.insert(rng.randrange(len(props) + 1),
                          ["x_more_refs", {"k": "list", "of": {"k": "objref", "valid_types": ["file"]} if obs20 else {"k": "ref", "specifics": ["tool"]}}, False])
-        if rng.random() < 0.15:
+        if rng.random() < 0.15 and props[0][0].rsplit("_", 1)[-1] not in ("ref", "refs"):
             props.append([props[0][0], rng.choice(USER_KINDS), False])      # a repeated name: last value, first position
         if rng.random() < 0.12 and kind in ("object", "observable"):
             props.append([rng.choice(["labels", "extensions", "revoked"]), {"k": "string"}, False])   # overrides a standard one
@@ -742,7 +756,7 @@ def check_inherit(run, n_cases, model_ok):
         run.sample({"custom class (live, dumped)": pairs[0][1][:600]})
     if model_ok and pairs:
         try:
-            mlines = common.coq_eval_lines("c19b", HEADER_B, [inherit_term(o, conf_range) for o, _, _ in pairs], shard=40)
+            mlines = eval_lines("c19b", HEADER_B, [inherit_term(o, conf_range) for o, _, _ in pairs], shard=40)
             dis = [(o, i, m) for (o, i, _), m in zip(pairs, mlines) if i != m]
             run.coverage["inherit_disagreements"] = len(dis)
             if dis:
@@ -942,7 +956,7 @@ def check(run):
     source_line = None
     if model_ok:
         try:
-            source_line = common.coq_eval_lines("c19v", HEADER, ["show_source"])[0]
+            source_line = eval_lines("c19v", HEADER, ["show_source"])[0]
         except RuntimeError as e:
             run.broken.append(Broken("correspondence", "model evaluation failed (show_source)", {"error": str(e)[-1500:]}))
             model_ok = False
@@ -1012,7 +1026,7 @@ def check(run):
     name_dis = []
     if model_ok:
         try:
-            model_lines = common.coq_eval_lines("c19n", HEADER, [names_term(s) for s in names], shard=250)
+            model_lines = eval_lines("c19n", HEADER, [names_term(s) for s in names], shard=250)
             name_dis = [(s, i, m) for s, i, m in zip(names, impl_lines, model_lines) if i != m]
             run.coverage["name_cases"] = len(names)
             run.coverage["name_disagreements"] = len(name_dis)
@@ -1075,7 +1089,7 @@ def check(run):
         run.sample({"history": good[0][0]["ops"][:6], "impl": good[0][1][:6]})
     if model_ok and good:
         try:
-            mlines = common.coq_eval_lines("c19h", HEADER, [history_term(c) for c, _ in good], shard=25)
+            mlines = eval_lines("c19h", HEADER, [history_term(c) for c, _ in good], shard=25)
             dis = []
             unmodelled = 0
             for (c, r), m in zip(good, mlines):
